@@ -133,7 +133,13 @@ def f2parts(x):
     return int(m * (1 << 53)), e
 
 
+EDGE_DOUBLES = [1.7976931348623157e308, -1.7976931348623157e308, 2.2250738585072014e-308, -2.2250738585072014e-308,
+                5e-324, -5e-324, 2.225073858507201e-308, 1.7976931348623155e308, 0.0, -0.0, 1.0, -1.0, 0.1]
+
+
 def rand_double(rng):
+    if rng.random() < 0.08:
+        return rng.choice(EDGE_DOUBLES)
     k = rng.randrange(8)
     if k == 0: bits = rng.getrandbits(64)
     elif k == 1: bits = rng.getrandbits(52) | (rng.randrange(2) << 63)                       # subnormal
